@@ -60,6 +60,7 @@ class Tracker:
         self.members = {}       # channel full id (bytes) -> set of nid bytes
         self.read_acl_touched = set()
         self.cfg_touched = set()
+        self.owner = {}         # channel -> nid of the owner as announced to the clients (None = not known)
         self.viol = []
 
     def conns_of(self, nid):
@@ -73,7 +74,7 @@ class Tracker:
         closed_at = {}
         for t, (op, o) in enumerate(zip(case["ops"], obs["ops"])):
             recv = {int(k): v for k, v in o["conns"].items()}
-            sent = parse_sent(bytes.fromhex(op["bytes"])) if op["t"] == "send" else []
+            sent = parse_sent(sl.op_bytes(op)) if op["t"] == "send" else []
             k0 = op.get("k")
             if op["t"] == "open":
                 self.live.add(k0)
@@ -125,8 +126,38 @@ class Tracker:
                 names = [fname(f) for f in myf]
                 me = users_before.get(k0)
                 ch = params.get("channel")
+                if kind == "JOIN" and me is not None and ch is not None:
+                    # C14: the per-user subscription limit and the channel-count limit, judged against the memberships
+                    # the clients were told about (acks, events of disconnects)
+                    who_j = params.get("on_behalf", me)
+                    cnt = len([c for c, m in members_before.items() if who_j in m])
+                    nch = len([c for c, m in members_before.items() if m])
+                    lim_s, lim_c = self.case["cfg"]["max_subs"], self.case["cfg"].get("max_channels", 100)
+                    errs_j = [fget(f, "reason") for f in myf if fname(f) == "ERROR"]
+                    fresh = ch not in members_before or not members_before[ch]
+                    if "JOIN_ACK" in names and who_j not in members_before.get(ch, set()):
+                        if cnt >= lim_s:
+                            self.viol.append(("C14", f"{who_j} admitted to {ch} while already in {cnt} channels (max_channels_per_client {lim_s})", t))
+                        if fresh and nch >= lim_c:
+                            self.viol.append(("C14", f"channel {ch} created while {nch} channels exist (max_channels {lim_c})", t))
+                    if errs_j[:1] == [b"POLICY_VIOLATION"] and cnt < lim_s:
+                        self.viol.append(("C14", f"{who_j} refused (subscription limit) although it is in only {cnt} channels (max_channels_per_client {lim_s})", t))
+                    if errs_j[:1] == [b"SERVER_OVERLOADED"] and not (fresh and nch >= lim_c):
+                        self.viol.append(("C14", f"JOIN of {ch} refused (max channels) although {nch} channels exist (max_channels {lim_c}) or the channel exists", t))
+                # C04: administrative requests succeed only for members (the owner is one); observers only for members
+                admin_ok = (kind == "SET_CHAN_ACL" and "SET_CHAN_ACL_ACK" in names) or (kind == "GET_CHAN_ACL" and "CHAN_ACL" in names) or \
+                    (kind == "SET_CHAN_CONFIG" and "SET_CHAN_CONFIG_ACK" in names) or \
+                    (kind in ("JOIN", "LEAVE") and "on_behalf" in params and params["on_behalf"] != me and (kind + "_ACK") in names)
+                observe_ok = (kind == "MEMBERS" and "MEMBERS_ACK" in names) or (kind == "GET_CHAN_CONFIG" and "CHAN_CONFIG" in names) or \
+                    (kind == "BROADCAST" and "BROADCAST_ACK" in names)
+                if (admin_ok or observe_ok) and me is not None and me not in members_before.get(ch, set()):
+                    self.viol.append(("C04", f"{kind} on {ch} succeeded for {me}, who is not a member of it", t))
+                if admin_ok and self.owner.get(ch) is not None and me != self.owner[ch]:
+                    self.viol.append(("C04", f"{kind} on {ch} succeeded for {me} although the owner is {self.owner[ch]}", t))
                 if kind == "JOIN" and "JOIN_ACK" in names:
                     who = params.get("on_behalf", me)
+                    if not members_before.get(ch):
+                        self.owner[ch] = who
                     self.members.setdefault(ch, set()).add(who)
                     acked_joins.append((ch, who, k0))
                 if kind == "LEAVE" and "LEAVE_ACK" in names:
@@ -159,6 +190,36 @@ class Tracker:
                     for c in self.members.values():
                         c.discard(u)
             self.members = {c: m for c, m in self.members.items() if m}
+            # ---- C04: one owner; when the owner leaves (request or last connection gone) a remaining member is
+            #      announced as the new owner (MEMBER_JOINED owner=true) to the remaining members
+            announced = {}
+            for k, v in recv.items():
+                for f in v["frames"]:
+                    if "undecodable" not in f and fname(f) == "EVENT" and fget(f, "kind") == b"MEMBER_JOINED" and sl.frame_get(f, "owner") is True:
+                        announced.setdefault(fget(f, "channel"), set()).add(fget(f, "nid"))
+            failing_ev = bool(self.case["cfg"]["mod"] and "fwd-event" in self.case["cfg"]["mod"]["ops"] and "err" in (op.get("script") or []))
+            leavers = [(c, w) for (c, w, _) in acked_leaves] + [(c, u) for u in gone_users for c in members_before if u in members_before[c]]
+            for (c, w) in leavers:
+                if self.owner.get(c) != w:
+                    continue
+                rest = self.members.get(c, set())
+                if not rest:
+                    self.owner.pop(c, None)
+                    continue
+                new = announced.get(c, set())
+                if len(new) == 1 and next(iter(new)) in rest:
+                    self.owner[c] = next(iter(new))
+                else:
+                    self.owner[c] = None
+                    watchers = [k for k in self.live if self.user.get(k) in rest and not recv.get(k, {}).get("closed")]
+                    if watchers and not failing_ev:
+                        self.viol.append(("C04", f"owner {w} left {c} with members {sorted(rest)} remaining, but {len(new)} new owners were announced ({sorted(new)})", t))
+            for c, new in announced.items():
+                if len(new) > 1:
+                    self.viol.append(("C04", f"several owners announced for {c} in one step: {sorted(new)}", t))
+                elif self.owner.get(c) is None and c in self.members and next(iter(new)) in self.members[c]:
+                    self.owner[c] = next(iter(new))
+            self.owner = {c: o for c, o in self.owner.items() if c in self.members}
             # ---- C01: every MESSAGE must be justified by membership before/after this op
             for k, v in recv.items():
                 for f in v["frames"]:
@@ -168,8 +229,43 @@ class Tracker:
                     u = users_before.get(k) or self.user.get(k)
                     if u is None or (u not in members_before.get(ch, set()) and u not in self.members.get(ch, set())):
                         self.viol.append(("C01", f"MESSAGE for {ch} delivered to conn {k} ({u}) which is not a member", t))
-            # ---- C18: events of acknowledged joins / leaves
+            # ---- C18: events of acknowledged joins / leaves; a refused JOIN/LEAVE announces nothing
             self.check_events(t, recv, acked_joins, acked_leaves, members_before, users_before, live_before)
+            for (kind, params, pl) in sent:
+                if kind not in ("JOIN", "LEAVE") or "id" not in params or k0 not in users_before:
+                    continue
+                try:
+                    rid = int(params["id"])
+                except ValueError:
+                    continue
+                myf = [f for f in recv.get(k0, {"frames": []})["frames"] if "undecodable" not in f and sl.frame_get(f, "id") == rid]
+                mine_all = [f for f in recv.get(k0, {"frames": []})["frames"] if "undecodable" not in f]
+                refused = any(fname(f) == "ERROR" for f in myf) or \
+                    (recv.get(k0, {}).get("closed") and any(fname(f) == "ERROR" and sl.frame_get(f, "id") is None for f in mine_all) and len(sent) == 1)
+                if refused and not any(fname(f) in ("JOIN_ACK", "LEAVE_ACK") for f in myf):
+                    who = params.get("on_behalf", users_before.get(k0))
+                    evk = b"MEMBER_JOINED" if kind == "JOIN" else b"MEMBER_LEFT"
+                    for k, v in recv.items():
+                        for f in v["frames"]:
+                            if "undecodable" not in f and fname(f) == "EVENT" and fget(f, "kind") == evk \
+                                    and fget(f, "channel") == params.get("channel") and fget(f, "nid") == who:
+                                self.viol.append(("C18", f"refused {kind} of {who} in {params.get('channel')} was still announced to conn {k}", t))
+            # ---- C17: a pushed direct payload reaches every connection of each listed user exactly once, nobody else
+            if op["t"] == "m2s_direct":
+                targets = {bytes.fromhex(x) for x in op["targets"]}
+                want_pl = bytes.fromhex(op["payload"])
+                for k in live_before:
+                    u = users_before.get(k)
+                    got = [f for f in recv.get(k, {"frames": []})["frames"] if "undecodable" not in f and fname(f) == "MOD_DIRECT"]
+                    uname = u.split(b"@")[0] if u else None
+                    want = 1 if (uname is not None and uname in targets) else 0
+                    if recv.get(k, {}).get("closed"):
+                        continue
+                    if len(got) != want:
+                        self.viol.append(("C17", f"direct payload for {sorted(targets)}: conn {k} ({u}) received {len(got)} copies, expected {want}", t))
+                    for f in got:
+                        if bytes.fromhex(f["payload"]) != want_pl or fget(f, "from") != domain:
+                            self.viol.append(("C17", f"direct payload delivered to conn {k} differs from what the modulator pushed (or from != server domain)", t))
         # ---- C12: every pending request answered or its connection closed
         for (k, rid), t in pending.items():
             if replies.get((k, rid), 0) == 0 and k not in closed_at and not any(
@@ -280,6 +376,7 @@ def audit_check(case, obs):
     viol = []
     listed = {}     # conn -> set of channels
     user = {}
+    gone = set()    # connections that ended (closed by the server or hung up)
     for t, (op, o) in enumerate(zip(case["ops"], obs["ops"])):
         for k, v in o["conns"].items():
             for f in v["frames"]:
@@ -289,6 +386,10 @@ def audit_check(case, obs):
                     user[int(k)] = fget(f, "nid")
                 if fname(f) == "AUTH_ACK" and sl.frame_get(f, "succeeded") is True:
                     user[int(k)] = fget(f, "nid")
+            if v["closed"]:
+                gone.add(int(k))
+        if op["t"] == "hangup":
+            gone.add(op["k"])
         if "audit" not in op:
             continue
         k = op["k"]
@@ -303,6 +404,11 @@ def audit_check(case, obs):
                 continue
             acks = [f for f in fr if fname(f) == "MEMBERS_ACK"]
             errs = [fget(f, "reason") for f in fr if fname(f) == "ERROR"]
+            if acks:
+                online = {u for kk, u in user.items() if kk not in gone}
+                for mnid in fget(acks[0], "members"):
+                    if mnid not in online:
+                        viol.append(("C05", f"{mnid} is listed in MEMBERS of {ch} although none of its connections is alive", t))
             if ch in listed[k]:
                 if not acks or user[k] not in fget(acks[0], "members"):
                     viol.append(("C05", f"{user[k]} lists {ch} in CHANNELS but is not in its MEMBERS ({errs})", t))
@@ -337,7 +443,7 @@ def acl_check(case, obs):
             continue
         k0 = op["k"]
         me = user.get(k0)
-        for (kind, params, pl) in parse_sent(bytes.fromhex(op["bytes"])):
+        for (kind, params, pl) in parse_sent(sl.op_bytes(op)):
             ch = params.get("channel")
             try:
                 rid = int(params.get("id", b"0"))
